@@ -82,7 +82,7 @@ fn assert_ordered(s: &Six, less: bool, equal: bool, greater: bool) {
     assert!(s.peq_rev == equal);
 }
 
-//@ k1_int props=C13,C01,C08:t tier=quick expect=pass fns=compare_values,compare_lt,compare_le,compare_gt,compare_ge,compare_eq,PathAwareValue::eq :: Int x Int, both payloads any i64 (2^128 pairs): trichotomy, <=/>= decomposition, numeric order, == symmetric via compare_eq and PartialEq
+//@ k1_int props=C13,C01,C08:t,C19 tier=quick expect=pass fns=compare_values,compare_lt,compare_le,compare_gt,compare_ge,compare_eq,PathAwareValue::eq :: Int x Int, both payloads any i64 (2^128 pairs): trichotomy, <=/>= decomposition, numeric order, == symmetric via compare_eq and PartialEq
 proof!(k1_int, 2, {
     let a: i64 = kani::any();
     let c: i64 = kani::any();
@@ -325,7 +325,7 @@ k1x!(k1x_null_bool, K_NULL, K_BOOL);
 k1x!(k1x_null_str, K_NULL, K_STR);
 //@ k1x_null_char props=C13,C08:t tier=thorough expect=pass fns=compare_values,compare_eq,PathAwareValue::eq :: cross-kind Null vs Char
 k1x!(k1x_null_char, K_NULL, K_CHAR);
-//@ k1x_int_float props=C13,C08:t tier=quick expect=pass fns=compare_values,compare_eq,PathAwareValue::eq :: cross-kind Int vs Float (1 vs 1.0 included): not comparable
+//@ k1x_int_float props=C13,C08:t,C19 tier=quick expect=pass fns=compare_values,compare_eq,PathAwareValue::eq :: cross-kind Int vs Float (1 vs 1.0 included): not comparable
 k1x!(k1x_int_float, K_INT, K_FLOAT);
 //@ k1x_int_bool props=C13,C08:t tier=thorough expect=pass fns=compare_values,compare_eq,PathAwareValue::eq :: cross-kind Int vs Bool
 k1x!(k1x_int_bool, K_INT, K_BOOL);
@@ -432,7 +432,7 @@ proof!(k2_range_char, 2, {
     forget(y);
 });
 
-//@ k1_twin props=C13,C01,C08:t tier=quick expect=fail fns=compare_values :: vacuity twin for the comparison family: same construction as k1_int, final assert(false) must be reached
+//@ k1_twin props=C13,C01,C08:t,C19 tier=quick expect=fail fns=compare_values :: vacuity twin for the comparison family: same construction as k1_int, final assert(false) must be reached
 proof!(k1_twin, 2, {
     let a: i64 = kani::any();
     let c: i64 = kani::any();
